@@ -1,5 +1,5 @@
 From Coq Require Import ZArith List.
-From PV Require Import Base.U64 C10.C10_Model C10.C10_Proofs C10.C10_ProofsLoop C10.C10_ProofsTop C10.C10_Engine C10.C10_ProofsEngine.
+From PV Require Import Base.U64 C10.C10_Model C10.C10_Proofs C10.C10_ProofsLoop C10.C10_ProofsTop C10.C10_Engine C10.C10_ProofsEngine C10.C10_ProofsRearm.
 Import ListNotations.
 Local Open Scope Z_scope.
 
@@ -56,3 +56,20 @@ Theorem engine_kernel_agree_refuted :
   exists steps, forallb no_close steps = true /\ ~ engine_kernel_agree_at (run_engine steps).
 Proof. exact engine_kernel_agree_refuted_lemma. Qed.
 Print Assumptions engine_kernel_agree_refuted.
+
+Theorem no_cross_talk_same_fd : forall fd d m s e0,
+  0 <= fd < s_size s -> (d = EV_READ \/ d = EV_WRITE \/ d = EV_ERROR) -> 0 <= m <= 7 ->
+  Z.land d m = d -> m <> d ->
+  i_int (tab_get fd (s_tab s)) = ONE_SHOT + m ->
+  kfind fd (kn_list (s_k s)) = Some e0 ->
+  let entry := tab_get fd (s_tab s) in
+  let r := rm_interest fd d s in
+  let entry' := tab_get fd (s_tab (snd r)) in
+  fst r = 0 /\
+  i_int entry' = ONE_SHOT + (m - d) /\
+  (d <> EV_READ -> i_rd entry' = i_rd entry) /\
+  (d <> EV_WRITE -> i_wr entry' = i_wr entry) /\
+  (d <> EV_ERROR -> i_er entry' = i_er entry) /\
+  kfind fd (kn_list (s_k (snd r))) = Some (mkkent fd (Z.lor (translate (m - d)) EPOLLONESHOT) true).
+Proof. exact rm_one_direction_rearms_others_lemma. Qed.
+Print Assumptions no_cross_talk_same_fd.
